@@ -847,6 +847,41 @@ fn eval(a: &[String]) -> String {
       }
       out
     }
+    "inverse_search_scan" => {
+      use tyme4rs::tyme::Culture;
+      // for sampled instants (all 12 double hours; instants within 2 h of a Jie instant skipped): the search over an enclosing year range must
+      // return an instant with the same eight characters within the same double hour, and nothing that has other characters
+      let mut out = "NONE".to_string();
+      let mut t = SolarTime::from_ymd_hms(2001, 3, 7, 0, 40, 0);
+      // the instants tried: 160 spread over 23 years, plus — for every Jie of 2003..2005 that falls after 05:00 — the instant 4 h 10 min before
+      // it on the same civil day (the old month's characters still hold there)
+      let mut ts: Vec<SolarTime> = Vec::new();
+      for _ in 0..160 { ts.push(t); t = t.next(86400 * 53 + 7200 * 5 + 1800); }
+      for y in 2003isize..=2005 { for k in 0..12isize {
+        let z = SolarTerm::from_index(y, 1 + 2 * k).get_julian_day().get_solar_time();
+        if z.get_hour() >= 5 { ts.push(z.next(-4 * 3600 - 600)); }
+      } }
+      'scan: for (k, t) in ts.iter().enumerate() {
+        let t = *t;
+        let ec = t.get_lunar_hour().get_eight_char();
+        let jie_near = { let term = t.get_term(); let a = term.get_julian_day().get_solar_time(); let b = term.next(1).get_julian_day().get_solar_time();
+                         t.subtract(a).abs() < 7300 || b.subtract(t).abs() < 7300 };
+        if !jie_near {
+          let (y0, y1) = if k % 3 == 0 { (t.get_year(), t.get_year()) } else { (t.get_year() - 7, t.get_year() + 61) };
+          let rs = ec.get_solar_times(y0, y1);
+          let name = ec.get_name();
+          if rs.iter().any(|r| r.get_lunar_hour().get_eight_char().get_name() != name) { out = format!("{} returned for other characters ({})", name, k); break 'scan; }
+          let lo = if t.get_hour() == 23 { t.get_hour() } else if t.get_hour() % 2 == 1 { t.get_hour() } else if t.get_hour() == 0 { 0 } else { t.get_hour() - 1 };
+          let start = SolarTime::from_ymd_hms(t.get_year(), t.get_month(), t.get_day(), lo, 0, 0);
+          let start = if t.get_hour() == 0 { start.next(-3600) } else { start };
+          if !rs.iter().any(|r| { let d = r.subtract(start); d >= 0 && d < 7200 }) {
+            out = format!("{}-{}-{} {}:{} ({}): no instant of its double hour among the {} returned for {}..{}", t.get_year(), t.get_month(), t.get_day(), t.get_hour(), t.get_minute(), name, rs.len(), y0, y1);
+            break 'scan;
+          }
+        }
+      }
+      out
+    }
     "fortune_scan" => {
       // decade / yearly fortunes of births on every 3rd day of 2000-2001 (both genders): ages, years and pillars against the rule
       use tyme4rs::tyme::eightchar::ChildLimit;
